@@ -1310,11 +1310,14 @@ class Run:
         self.finished = True
         self.script, self.si = [], 0
         for p in self.procs:
-            if p.thread is not None and p.thread.is_alive():
+            if p.thread is None:
+                continue
+            if p.status == "parked":    # blocked on its semaphore: unwind
                 p.abandon = True
                 p.sem.release()
                 self.ctl.acquire()
-                p.thread.join()
+            # any other status: the thread is past its last hand-over
+            p.thread.join()
         if _RT is self:
             _RT = None
 
